@@ -4,7 +4,8 @@ import HdVerif.Proofs.TilingHelpers
 Property theorems only (helper lemmas: `Proofs/TilingGrid.lean`, `Proofs/TilingCut.lean`, `Proofs/TilingFull.lean`,
 `Proofs/TilingHelpers.lean`).  The integer cores are *regenerated from /repo's current source* on every run:
 `Gen.tilesPerAxisCeil` (T7a, `tile_pixel_matrix`: `int(np.ceil(n / t))` rendered faithfully over `Rat`),
-`Gen.tilesPerAxisFloor` (T7b, `compute_tile_positions_per_frame`: `(n - 1) // t + 1`), `Gen.tileArrayBounds` (T6,
+`Gen.tilesPerAxisFloor` (T7b, `compute_tile_positions_per_frame`: `(n - 1) // t + 1`), `Gen.tiledFullZOffset` (T7e),
+`Gen.tiledFullFrameSlice` (T7f, `_get_spatial_information`), `Gen.tileArrayBounds` (T6,
 `get_tile_array`), `Gen.planePositionOffsets` (T7c, `compute_plane_position_tiled_full`), `Gen.tfInit / tfMaxStep /
 tfRanges / tfMatchStep` (T7d, `are_plane_positions_tiled_full`); the enumerations around them are in
 `Model/Tiling.lean` and tied to the code by the exhaustive correspondence (1..24 per dimension).
@@ -96,12 +97,12 @@ theorem indices_and_offsets_agree (R C tr tc : Int) (hr : 1 ≤ tr) (hc : 1 ≤ 
 
 /-- **`five_descriptions_agree`** (offsets ↔ per-frame data): `iter_tiled_full_frame_data` is, for each channel (outermost)
 and each focal plane, the list `compute_tile_positions_per_frame` returns with the focal plane's z origin
-`(plane - 1) · spacing between slices` — same offsets, same order. -/
+`origin z + (plane - 1) · spacing between slices` — same offsets, same order. -/
 theorem per_frame_data_is_the_grid (channels : List (Option Int)) (planes tr tc R C : Int) (g : Geo) (sbs : Rat)
     (hr : 1 ≤ tr) (hc : 1 ≤ tc) (hR : 1 ≤ R) (hC : 1 ≤ C) :
     iterTiledFull channels planes tr tc R C g sbs =
       .ok ((channels.flatMap (fun ch => (iota planes).map (fun p => (ch, p + 1)))).flatMap (fun chp =>
-        (tpOf tr tc R C { g with oz := ((chp.2 - 1 : Int) : Rat) * sbs }).map
+        (tpOf tr tc R C { g with oz := g.oz + ((chp.2 - 1 : Int) : Rat) * sbs }).map
           (fun p => (chp.1, chp.2, p.1.1, p.1.2, p.2.1, p.2.2.1, p.2.2.2)))) ∧
     (∀ g', tilePositions tr tc R C g' = .ok (tpOf tr tc R C g')) ∧
     (∀ g', (tpOf tr tc R C g').map Prod.fst = (gridPos R C tr tc).map (fun p => (p.2, p.1))) :=
@@ -128,6 +129,27 @@ theorem plane_position_agrees (ri ci tr tc R C : Int) (g : Geo) (z3d : Option (I
 theorem plane_position_refused (ri ci tr tc : Int) (g : Geo) (z3d : Option (Int × Rat)) (h : ri < 1 ∨ ci < 1) :
     planePositionTiledFull ri ci tr tc g z3d = .error .value :=
   planePosition_refused ri ci tr tc g z3d h
+
+/-- **`five_descriptions_agree`** (sixth description: the per-frame transformers).  The position
+`_get_spatial_information(dataset, frame_number=k)` hands to every `*Transformer.for_image(image, frame_number=k)` of a
+TILED_FULL image is, for `k = 1 + ((c · planes + p) · ⌈R/tr⌉ + i) · ⌈C/tc⌉ + j`, the pixel-to-reference transform of the
+offset `(j · tc, i · tr)` of tile `(i, j)` in focal plane `p` (z origin `origin z + p · spacing between slices`) — the same row-major
+grid, channels outermost, then focal planes, for square and non-square tile grids alike. -/
+theorem frame_number_is_row_major (channels : List (Option Int)) (planes tr tc R C : Int) (g : Geo) (sbs : Rat)
+    (hr : 1 ≤ tr) (hc : 1 ≤ tc) (hR : 1 ≤ R) (hC : 1 ≤ C)
+    (c p i j : Nat) (ch : Option Int) (hch : channels[c]? = some ch) (hp : (p : Int) < planes)
+    (hi : (i : Int) < nTiles R tr) (hj : (j : Int) < nTiles C tc) :
+    framePosition channels planes tr tc R C g sbs
+        (1 + ((((c * planes.toNat + p) * (nTiles R tr).toNat + i) * (nTiles C tc).toNat + j : Nat) : Int)) =
+      .ok (pixToRef { g with oz := g.oz + (p : Rat) * sbs } ((j : Int) * tc) ((i : Int) * tr)) :=
+  framePosition_row_major channels planes tr tc R C g sbs hr hc hR hC c p i j ch hch hp hi hj
+
+/-- frame numbers outside `1 .. channels · planes · ⌈R/tr⌉ · ⌈C/tc⌉` are refused -/
+theorem frame_number_out_of_range (channels : List (Option Int)) (planes tr tc R C : Int) (g : Geo) (sbs : Rat)
+    (hr : 1 ≤ tr) (hc : 1 ≤ tc) (hR : 1 ≤ R) (hC : 1 ≤ C) (hp : 0 ≤ planes) (k : Int)
+    (hk : k < 1 ∨ (channels.length : Int) * planes * (nTiles R tr * nTiles C tc) < k) :
+    ∃ e, framePosition channels planes tr tc R C g sbs k = .error e :=
+  framePosition_out_of_range channels planes tr tc R C g sbs hr hc hR hC hp k hk
 
 /-- **`five_descriptions_agree`** (the full-tiling test): the grid every other helper describes passes
 `are_plane_positions_tiled_full`, for every matrix and tile size. -/
@@ -217,5 +239,16 @@ example : ∃ out, cutPaste (0 : Int) (fun i j => 10 * i + j + 1) 5 4 2 3 = .ok 
   · rw [hp 4 3 (by decide) (by decide) (by decide) (by decide)]; decide
   · rw [hp 5 3 (by decide) (by decide) (by decide) (by decide)]; decide
   · rw [hp 2 4 (by decide) (by decide) (by decide) (by decide)]; decide
+
+/-- a non-square tile grid: 4 × 6 in 2 × 2 tiles is 2 tile rows × 3 tile columns; frame 5 of the single channel / plane is
+tile (row 1, column 1), i.e. pixel offset (column 2, row 2) -/
+example : framePosition [some 1] 1 2 2 4 6 ⟨0, 0, 0, 1, 0, 0, 0, 1, 0, 1, 1⟩ 1 5 = .ok (2, 2, 0) := by
+  have h := frame_number_is_row_major [some 1] 1 2 2 4 6 ⟨0, 0, 0, 1, 0, 0, 0, 1, 0, 1, 1⟩ 1 (by decide) (by decide) (by decide) (by decide)
+    0 0 1 1 (some 1) rfl (by decide) (by decide) (by decide)
+  have e : (1 + ((((0 * (1 : Int).toNat + 0) * (nTiles 4 2).toNat + 1) * (nTiles 6 2).toNat + 1 : Nat) : Int)) = 5 := by decide
+  rw [e] at h
+  rw [h]
+  simp only [pixToRef]
+  norm_num
 
 end HdVerif.Examples.C12
